@@ -1,3 +1,95 @@
 package main
 
-func selftest() int { return 0 }
+// Self-test = translator validation + solver sanity, run by setup_cmd:
+//  (a) canned queries with known verdicts on every solver binary;
+//  (b) for a set of fast harnesses the engine collects solver models of its reachability
+//      witnesses (vxCover); each model is replayed against the NATIVE build of the same harness:
+//      the compiler's execution must agree with the engine's (no violated assertion, no failed
+//      assumption) - the engine as an interpreter of the real code is thereby checked against
+//      the Go compiler on inputs chosen by the solver, including its models of library
+//      functions (strings, filepath, maps, sort, Pebble contract on a real in-memory Pebble).
+
+import (
+	"fmt"
+	"os"
+	"path/filepath"
+	"strings"
+)
+
+func solverSanity() int {
+	bad := 0
+	cases := []struct {
+		script string
+		want   string
+	}{
+		{"(declare-const x (_ BitVec 8)) (assert (= (bvadd x #x01) #x00)) (assert (not (= x #xff)))", "unsat"},
+		{"(declare-const x (_ BitVec 8)) (assert (bvult x #x03))", "sat"},
+		{"(declare-const a (_ FloatingPoint 11 53)) (assert (not (fp.isNaN a))) (assert (not (fp.eq (fp.sub RNE a a) ((_ to_fp 11 53) RNE 0.0)))) (assert (not (fp.isInfinite a)))", "unsat"},
+	}
+	for _, k := range []string{"z3", "cvc5", "z3-new"} {
+		for i, c := range cases {
+			r, _ := oneShot(k, []string{c.script}, nil, 30000, nil)
+			if r != c.want {
+				fmt.Printf("SELFTEST solver %s canned query %d: got %s want %s\n", k, i, r, c.want)
+				bad++
+			}
+		}
+	}
+	return bad
+}
+
+func selftest() int {
+	bad := solverSanity()
+	os.MkdirAll(filepath.Join(verifDir, ".work"), 0755)
+	wd, _ := os.MkdirTemp(filepath.Join(verifDir, ".work"), "selftest-")
+	defer os.RemoveAll(wd)
+	initKnown()
+	type item struct {
+		pkgs []string
+		cfg  *HarnessCfg
+	}
+	items := []item{
+		{[]string{"pkg/diff"}, &HarnessCfg{Name: "VerifC15_HardenedEnv", Pkg: repoMod + "/pkg/diff", Solver: "z3", Params: map[string]int64{"entries": 2, "maxlen": 9}}},
+		{[]string{"internal/sandbox"}, &HarnessCfg{Name: "VerifC14_Spec", Pkg: sbPkg, Solver: "z3", Params: map[string]int64{"mounts": 2}}},
+		{[]string{"internal/sandbox"}, &HarnessCfg{Name: "VerifC14_MountPointEscape", Pkg: sbPkg, Solver: "z3", Params: map[string]int64{"destlen": 4}}},
+		{[]string{"pkg/storage/jsondb"}, &HarnessCfg{Name: "VerifC18_JSONAddGet", Pkg: jsonPkg, Solver: "z3", Params: map[string]int64{"ops": 2}}},
+		{[]string{"pkg/storage/pebbledb"}, &HarnessCfg{Name: "VerifC05_StoreRoundTrip", Pkg: pebPkg, Solver: "cvc5", TimeoutMs: 60000}},
+	}
+	replays, agree := 0, 0
+	for _, it := range items {
+		in, err := loadInterp(it.pkgs, nil, nil, wd)
+		if err != nil {
+			fmt.Println("SELFTEST cannot load", it.pkgs, err)
+			return 1
+		}
+		it.cfg.KeepWitnesses = true
+		res := runHarness(in, it.cfg, gWorkers)
+		if len(res.Violations) > 0 {
+			fmt.Printf("SELFTEST note: %s reports violations on this tree (checks will report them)\n", it.cfg.Name)
+		}
+		seen := map[string]int{}
+		pkgRel := strings.TrimPrefix(it.cfg.Pkg, repoMod+"/")
+		for _, w := range res.Witnesses {
+			if seen[w.Label] >= 2 || strings.HasPrefix(w.Label, "$") {
+				continue
+			}
+			seen[w.Label]++
+			rf := &ReplayFile{Property: "selftest", Pkg: pkgRel, Harness: it.cfg.Name, Label: w.Label, Vec: w.Vec, Tags: w.Tags, Params: it.cfg.Params}
+			path := filepath.Join(wd, fmt.Sprintf("w-%s-%d.json", it.cfg.Name, replays))
+			saveJSON(path, rf)
+			replays++
+			_, st, _ := nativeReplay(wd, pkgRel, rf, path)
+			if st == "ok" {
+				agree++
+			} else if len(res.Violations) == 0 {
+				fmt.Printf("SELFTEST DISAGREEMENT: harness %s witness of %q: engine says the run is clean, native run says %s\n", it.cfg.Name, w.Label, st)
+				bad++
+			}
+		}
+	}
+	fmt.Printf("selftest: %d solver sanity failures; %d witness vectors replayed natively, %d agree\n", bad, replays, agree)
+	if bad > 0 {
+		return 1
+	}
+	return 0
+}
